@@ -37,7 +37,7 @@ GOENV = {
 # race build, address-space limit (GiB, 0 = none)
 DEFAULT = dict(shards=(8, 16), limit=(240, 2400), race=False, as_gib=16, native_fuzz=False)
 PROPS = {
-    "C01": dict(pkg="c01", native_fuzz=("FuzzParse", 120)), "C02": dict(pkg="c02"), "C03": dict(pkg="c03"), "C04": dict(pkg="c04"),
+    "C01": dict(pkg="c01", native_fuzz=("FuzzParse", 120)), "C02": dict(pkg="c02"), "C03": dict(pkg="c03"), "C04": dict(pkg="c04", native_fuzz=("FuzzTokens", 90)),
     "C05": dict(pkg="c05"), "C06": dict(pkg="c06"), "C07": dict(pkg="c07"), "C08": dict(pkg="c08"),
     "C09": dict(pkg="c09", shards=(4, 16)), "C10": dict(pkg="c10"),
     "C11": dict(pkg="c11", race=True, as_gib=0, shards=(4, 8)),
